@@ -75,10 +75,10 @@ func Names(members []Member) []string {
 type HrefStyle int
 
 const (
-	HrefMinimal HrefStyle = iota // encode only what must be encoded (space, '%', non-ASCII, reserved gen-delims)
-	HrefIRI                      // like minimal but non-ASCII characters left raw (IRI, allowed by EPUB 3)
-	HrefHeavy                    // additionally encode some unreserved characters and '+' as %XX (equivalent URL)
-	HrefLowerHex                 // minimal with lower-case hex digits
+	HrefMinimal  HrefStyle = iota // encode only what must be encoded (space, '%', non-ASCII, reserved gen-delims)
+	HrefIRI                       // like minimal but non-ASCII characters left raw (IRI, allowed by EPUB 3)
+	HrefHeavy                     // additionally encode some unreserved characters and '+' as %XX (equivalent URL)
+	HrefLowerHex                  // minimal with lower-case hex digits
 )
 
 var hrefStyleNames = [...]string{"minimal", "iri", "heavy", "lowerhex"}
